@@ -64,7 +64,6 @@ pub struct DtorSnap {
     pub depth: u32,
 }
 
-#[derive(Default)]
 pub struct ExecState {
     pub depth: u32,
     pub dtor_counter: u32,
@@ -86,6 +85,21 @@ pub struct ExecState {
     pub nested_destroy_in_script: u32,
     pub nontrivial: u32,
     pub shape_hash: u64,
+    pub dtor_downgrade_p: u32,
+    pub dtor_rng: crate::gen::Rng,
+    pub dtor_auto: Id,
+    pub inline_record: Vec<(u32, Vec<Op>)>,
+}
+
+impl Default for ExecState {
+    fn default() -> Self {
+        ExecState {
+            depth: 0, dtor_counter: 0, faults: Faults::default(), fired_panics: 0, fired_scripts: 0, panic_in_call: false, any_panic: false,
+            pending_clone: None, clone_done: None, c14: None, record_dtors: false, dtors: vec![], call_digests: vec![], order_digest: 0,
+            call_start_log: 0, c16_markers: false, collected_group_with_outside_survivor: false, nested_destroy_in_script: 0, nontrivial: 0,
+            shape_hash: 0, dtor_downgrade_p: 0, dtor_rng: crate::gen::Rng(0), dtor_auto: 0, inline_record: vec![],
+        }
+    }
 }
 
 thread_local! {
@@ -131,7 +145,7 @@ fn on_stale_access() {
 
 /// Reset everything for a new execution. Leftovers of the previous execution are
 /// forgotten, never dropped (their heap is gone with the arena reset).
-pub fn reset(faults: Faults, want_snaps: bool, record_dtors: bool, c16_markers: bool) {
+pub fn reset(faults: Faults, want_snaps: bool, record_dtors: bool, c16_markers: bool, dtor_downgrade_p: u32, dtor_seed: u64) {
     har(|| {
         let old = W.with(|w| std::mem::take(&mut *w.borrow_mut()));
         std::mem::forget(old);
@@ -140,7 +154,7 @@ pub fn reset(faults: Faults, want_snaps: bool, record_dtors: bool, c16_markers: 
             drop(old);
         });
         X.with(|x| {
-            *x.borrow_mut() = ExecState { faults, record_dtors, c16_markers, order_digest: 0xcbf29ce484222325, ..ExecState::default() };
+            *x.borrow_mut() = ExecState { faults, record_dtors, c16_markers, order_digest: 0xcbf29ce484222325, dtor_downgrade_p, dtor_rng: crate::gen::Rng(dtor_seed), ..ExecState::default() };
         });
     });
     verif::reset();
@@ -189,7 +203,9 @@ impl Drop for DepthGuard {
     }
 }
 
-struct ReleaseGuard;
+struct ReleaseGuard {
+    new: Vec<Id>,
+}
 impl Drop for ReleaseGuard {
     fn drop(&mut self) {
         m(|m| m.release_end());
@@ -197,9 +213,57 @@ impl Drop for ReleaseGuard {
 }
 
 fn release_begin(t: Id) -> ReleaseGuard {
-    m(|m| m.release_begin(t));
+    let new = m(|m| m.release_begin(t));
     st(St::p_release_frames, 1);
-    ReleaseGuard
+    ReleaseGuard { new }
+}
+
+/// A release issued by user code *inside a destructor* (a script action) has
+/// returned: what it had to destroy must be destroyed now, not merely by the end of
+/// the outermost call. (The target was held by the program, so it is not a member of
+/// a group that is being torn down around us.)
+fn nested_release_returned(g: &ReleaseGuard) {
+    if x(|x| x.depth) == 0 || std::thread::panicking() {
+        return;
+    }
+    for &o in &g.new {
+        if m(|m| m.objs.get(&o).map_or(false, |ob| ob.alive && !ob.zombie)) {
+            st(St::p_nested_obligation_checks, 1);
+            soft(
+                "not-collected",
+                "nested-release-returned-without-destroying",
+                &format!("a handle was released from inside a destructor; object {o} had to be destroyed before that release returned but is still alive"),
+            );
+        } else {
+            st(St::p_nested_obligation_checks, 1);
+        }
+    }
+}
+
+/// Counts observed from inside a destructor, after a script action: exact for every
+/// object the program holds (C06 through C10).
+fn observe_counts_nested() {
+    if !report::soft_enabled(report::S_COUNT) {
+        return;
+    }
+    W.with(|wc| {
+        let Ok(wd) = wc.try_borrow() else { return };
+        for (hid, r) in wd.hs.iter() {
+            let (o, phys, nweak) = m(|m| {
+                let o = m.ph[hid];
+                let ob = m.obj(o);
+                (o, m.phys(o), m.nweak(o, ob.epoch))
+            });
+            let (sc, wcnt) = sut(|| (Rc::strong_count(r), Rc::weak_count(r)));
+            st(St::p_c06_nested_count_checks, 1);
+            if sc != phys as usize {
+                soft("count-mismatch", "strong_count-inside-destructor", &format!("inside a destructor, Rc::strong_count of held object {o} is {sc}, but {phys} strong handles exist"));
+            }
+            if wcnt != nweak as usize {
+                soft("count-mismatch", "weak_count-inside-destructor", &format!("inside a destructor, Rc::weak_count of held object {o} is {wcnt}, but {nweak} Weak handles exist"));
+            }
+        }
+    });
 }
 
 impl Drop for Node {
@@ -307,6 +371,44 @@ impl Node {
                     st(St::f_nested_collection, 1);
                     x(|x| x.nested_destroy_in_script += 1);
                 }
+                if pending.is_none() {
+                    observe_counts_nested();
+                }
+            }
+        }
+
+        // Destructor-side calls that are part of the history itself: recorded ones
+        // (replay) or, when the run's knob says so, a downgrade of stored handles
+        // (possibly handles to dying peers) whose Weak outlives the teardown.
+        let mut inline_ops: Vec<Op> = x(|x| x.faults.inline.iter().find(|(kk, _)| *kk == k).map(|(_, v)| v.clone()).unwrap_or_default());
+        for op in &inline_ops {
+            report::ctx_push_op(&format!("@{k} {}", op.text()), false);
+        }
+        let dg = x(|x| x.dtor_downgrade_p);
+        if dg > 0 {
+            let n = self.slots.borrow().len();
+            for idx in 0..n {
+                let (hit, wid) = x(|x| {
+                    let hit = x.dtor_rng.chance(dg, 8);
+                    if hit {
+                        x.dtor_auto += 1;
+                    }
+                    (hit, 2_000_000 + x.dtor_auto)
+                });
+                if hit {
+                    let op = Op::SelfDowngradeSlot { idx: idx as Id, w: wid };
+                    report::ctx_push_op(&format!("@{k} {}", op.text()), false);
+                    inline_ops.push(op);
+                }
+            }
+        }
+        if !inline_ops.is_empty() {
+            x(|x| x.inline_record.push((k, inline_ops.clone())));
+        }
+        for op in &inline_ops {
+            let r = catch_unwind(AssertUnwindSafe(|| exec(op, Some(self))));
+            if let Err(p) = r {
+                pending.get_or_insert(p);
             }
         }
 
@@ -365,7 +467,9 @@ impl Clone for Node {
             let src = self.id.get();
             let (h, o2) = match x(|x| x.pending_clone.take()) {
                 Some(p) => p,
-                None => report::harness_error("Node::clone outside make_mut"),
+                // the model predicted that make_mut would not clone (the handle is the
+                // only strong handle): the library disagrees about the count
+                None => violation("api-result", "make_mut-cloned-a-unique-value", &format!("make_mut cloned the value of object {src} although the handle is its only strong handle")),
             };
             let n = Node::new(o2);
             m(|m| {
@@ -492,9 +596,10 @@ fn exec_inner(op: &Op, dying: Option<&Node>) -> bool {
             let o = m(|m| m.ph.remove(&h).unwrap());
             st(St::op_drop, 1);
             c14_open(o);
-            let _g = release_begin(o);
+            let g = release_begin(o);
             sut(move || drop(r));
             c14_close();
+            nested_release_returned(&g);
             true
         }
         Op::Store { h, owner, adopt } => {
@@ -962,8 +1067,9 @@ fn exec_inner(op: &Op, dying: Option<&Node>) -> bool {
                 w(|w| w.raws.remove(&rid));
             }
             mark_consuming(o);
-            let _g = release_begin(o);
+            let g = release_begin(o);
             sut(|| unsafe { Rc::decrement_strong_count(p) });
+            nested_release_returned(&g);
             st(St::op_decstrong, 1);
             true
         }
@@ -1013,6 +1119,26 @@ fn exec_inner(op: &Op, dying: Option<&Node>) -> bool {
                 m.ph.insert(d, t);
             });
             w(|w| w.hs.insert(d, c));
+            true
+        }
+        Op::SelfDowngradeSlot { idx, w: wid } => {
+            let Some(node) = dying else { return false };
+            if w(|w| w.ws.contains_key(&wid)) {
+                return false;
+            }
+            let slots = node.slots.borrow();
+            let Some(s) = slots.get(idx as usize) else { return false };
+            let t = s.target;
+            let wk = sut(|| Rc::downgrade(&s.h));
+            drop(slots);
+            let dead = m(|m| {
+                let e = m.objs.get(&t).map_or(0, |ob| ob.epoch);
+                m.pw.insert(wid, (t, e));
+                !m.is_alive(t)
+            });
+            w(|w| w.ws.insert(wid, wk));
+            st(St::op_downgrade, 1);
+            st(if dead { St::f_downgrade_dead_peer_in_dtor } else { St::f_downgrade_live_in_dtor }, 1);
             true
         }
         Op::SelfDropSlot { idx } => {
